@@ -676,6 +676,11 @@ class Boundary(Node):
             if len(bad):
                 tang = near_tangent(self.d, P[bad], {k: (v[bad] if v.shape[0] == len(P) else v) for k, v in env.items()}, tol)
                 amb[bad[tang]] = True
+                # a seam has two leaf boundaries ON the point; when the second one passes at 2..50 tol the point sits on
+                # a sliver thinner than the smallest ring of the ladder (e.g. a circle passing 3e-4 outside a triangle
+                # vertex): below the resolution of the two-sided test, not judged
+                second = np.sort(leaves[:, bad], axis=0)[1] if leaves.shape[0] > 1 else np.zeros(len(bad))
+                amb[bad[second > 2 * tol]] = True
         return sure, amb
 
     def measure(self, env, N=1):
